@@ -88,7 +88,7 @@ class Runner:
         with open(self.log, "wb"):
             pass
         os.chmod(self.log, 0o666)
-        e = shim.env(clock=self.clock, log=self.log, trace="mra", plan=plan, count=count,
+        e = shim.env(clock=self.clock, log=self.log, trace="mrao", plan=plan, count=count,
                      readchunk=readchunk, datacap=16)
         st = sandbox.inject(self.b, self.home, msg, env, env_extra=e, as_uid=uid)
         evs = shim.read_log(self.log)
@@ -255,6 +255,7 @@ FAULTS = {
     "read": ["fail=EIO", "fail=EINTR", "short=1"],
     "fsync": ["fail=EIO"],
     "open": ["fail=ENOSPC", "fail=EMFILE", "fail=EEXIST"],
+    "openr": ["fail=EMFILE", "fail=EIO"],
     "link": ["fail=EEXIST", "fail=ENOSPC", "fail=EIO"],
     "unlink": ["fail=EIO"],
     "close": ["fail=EIO"],
@@ -375,7 +376,7 @@ def worker(bdir, tier, lo, hi, sweep_every):
             res.nontrivial("crash", label, k)
         # (3) single-fault sweep over every call site (reads included) on a subset of inputs
         if idx % sweep_every == 0 or cls == "malformed" and idx % (sweep_every * 2) == 1:
-            st3, evs3 = R.run(msg, env, uid, count="mr", readchunk=rc)
+            st3, evs3 = R.run(msg, env, uid, count="mro", readchunk=rc)
             calls = [e for e in evs3 if "n2" in e and e["c"] not in ("alarm", "sleep")]
             # thin out long runs of identical reads/writes: first, second, last of each (call, path) run
             pick = []
@@ -387,7 +388,7 @@ def worker(bdir, tier, lo, hi, sweep_every):
             for e in sorted(pick, key=lambda x: x["n2"]):
                 for action in FAULTS.get(e["c"], []):
                     k = e["n2"]
-                    st4, evs4 = R.run(msg, env, uid, plan="qmail-queue:%d:%s" % (k, action), count="mr", readchunk=rc)
+                    st4, evs4 = R.run(msg, env, uid, plan="qmail-queue:%d:%s" % (k, action), count="mro", readchunk=rc)
                     res.evaluations += 1
                     inj = [x for x in evs4 if x.get("inj") in ("fail", "short")]
                     if not inj:
